@@ -250,8 +250,32 @@ func c13Run(c *Ctx) {
 			secName = randCase(r, secName)
 		}
 	}
+	// repeated entries may name the option in different ways: every spelling that resolves to the same option
+	spellings := []string{name}
+	for _, alt := range []string{resolved.Field, d.FullLong(resolved), string(resolved.Short), randCase(r, resolved.IniName)} {
+		if alt == "" || alt == "\x00" || alt == name {
+			continue
+		}
+		if resolveIniName(d, se.groups, alt) != resolved {
+			continue
+		}
+		cnt := 0
+		for _, o := range groupTree(se.groups[0]) {
+			if (o.IniName != "" && strings.EqualFold(o.IniName, alt)) || o.Field == alt || (o.Long != "" && d.FullLong(o) == alt) || (o.Short != 0 && string(o.Short) == alt) {
+				cnt++
+			}
+		}
+		if cnt == 1 {
+			spellings = append(spellings, alt)
+		}
+	}
+	first := name
 	falseFlag := false
 	for i := 0; i < n; i++ {
+		name := first
+		if i > 0 {
+			name = spellings[r.Intn(len(spellings))]
+		}
 		if t.IsFlag() {
 			switch r.Intn(4) {
 			case 0:
